@@ -502,26 +502,50 @@ objective_t naive_grads(const case_t& c, const data_t& dt, sample_loss_t& sl, st
 // ---------------------------------------------------------------------------------------
 struct judge_t
 {
-    ctx_t&                   ctx;
-    bool                     borderline{false};
-    std::optional<verdict_t> fail;
+    ctx_t&                                      ctx;
+    bool                                        borderline{false};
+    std::optional<verdict_t>                    fail;
+    std::vector<std::pair<std::string, double>> maxima;
+
+    size_t slot(const std::string& key)
+    {
+        for (size_t i = 0; i < maxima.size(); ++i)
+        {
+            if (maxima[i].first == key)
+            {
+                return i;
+            }
+        }
+        maxima.emplace_back(key, 0.0);
+        return maxima.size() - 1;
+    }
+
+    void flush()
+    {
+        for (const auto& kv : maxima)
+        {
+            ctx.maximum(kv.first, kv.second);
+        }
+    }
 
     // |got - want| <= rel_tol * scale (+ widen); violation only beyond 10x the relative part
-    bool operator()(const char* key, double got, const term_t& want, const std::string& sig, const std::string& what)
+    // (signature and message are callables: only evaluated on failure)
+    template <class tsig, class twhat>
+    bool test(size_t slot, double got, const term_t& want, const tsig& sig, const twhat& what)
     {
         const ld err  = std::fabs(static_cast<ld>(got) - want.value);
         const ld tol  = rel_tol * want.scale;
         const ld tiny = std::numeric_limits<double>::min();
         if (std::isfinite(static_cast<double>(err)))
         {
-            ctx.maximum(key, static_cast<double>(std::max<ld>(0, err - want.widen) / std::max(tol, tiny)));
+            maxima[slot].second = std::max(maxima[slot].second, static_cast<double>(std::max<ld>(0, err - want.widen) / std::max(tol, tiny)));
         }
         if (!(err <= 10 * tol + want.widen))
         {
             if (!fail)
             {
-                fail = verdict_t::violation(sig, cat(what, ": got ", got, " expected ", static_cast<double>(want.value), " |diff|=", static_cast<double>(err),
-                                                     " allowed ", static_cast<double>(tol + want.widen), " (magnitude of the summed terms ", static_cast<double>(want.scale), ")"));
+                fail = verdict_t::violation(sig(), cat(what(), ": got ", got, " expected ", static_cast<double>(want.value), " |diff|=", static_cast<double>(err),
+                                                       " allowed ", static_cast<double>(tol + want.widen), " (magnitude of the summed terms ", static_cast<double>(want.scale), ")"));
             }
             return false;
         }
@@ -574,15 +598,17 @@ void compare(judge_t& judge, const eval_t& got, const objective_t& want, const s
     {
         return;
     }
-    if (!judge(cat(sig, "/value").c_str() + 4, got.value, want.value, cat(sig, "/value"), what))
+    const auto svalue = judge.slot(sig.substr(4) + "/value");
+    if (!judge.test(svalue, got.value, want.value, [&] { return sig + "/value"; }, [&] { return what; }))
     {
         return;
     }
     if (!got.grad.empty())
     {
+        const auto sgrad = judge.slot(sig.substr(4) + "/gradient");
         for (size_t i = 0; i < got.grad.size(); ++i)
         {
-            if (!judge(cat(sig, "/gradient").c_str() + 4, got.grad[i], want.grad[i], cat(sig, "/gradient"), cat(what, ", component ", i, " of ", got.grad.size())))
+            if (!judge.test(sgrad, got.grad[i], want.grad[i], [&] { return sig + "/gradient"; }, [&] { return cat(what, ", component ", i, " of ", got.grad.size()); }))
             {
                 return;
             }
@@ -650,7 +676,7 @@ verdict_t check_impl(const case_t& given, ctx_t& ctx)
     }
     nano::tensor4d_t soutputs(n, tsize, 1, 1), woutputs(n, tsize, 1, 1), goutputs(m, tsize, 1, 1);
 
-    judge_t                    judge{ctx};
+    judge_t                    judge{ctx, false, std::nullopt, {}};
     std::optional<objective_t> naive_l, naive_b, naive_s, naive_g;
     std::vector<double>        persample;
     eval_t                     first_l, first_b, first_s, first_g;
@@ -820,12 +846,15 @@ verdict_t check_impl(const case_t& given, ctx_t& ctx)
                 {
                     judge.fail = verdict_t::violation("C09/gboost-grads/gradients-shape", cat(grads.size(), " expected ", persample.size()));
                 }
+                const auto sps = judge.slot("gboost-grads/per-sample");
                 for (size_t i = 0; i < persample.size() && !judge.fail; ++i)
                 {
                     term_t want;
                     want.value = persample[i];
                     want.scale = std::fabs(persample[i]);
-                    judge("gboost-grads/per-sample", grads(static_cast<tensor_size_t>(i)), want, "C09/gboost-grads/per-sample-gradient", cat(config, ", entry ", i));
+                    judge.test(
+                        sps, grads(static_cast<tensor_size_t>(i)), want, [] { return std::string("C09/gboost-grads/per-sample-gradient"); },
+                        [&] { return cat(config, ", entry ", i); });
                 }
             }
         }
@@ -870,6 +899,7 @@ verdict_t check_impl(const case_t& given, ctx_t& ctx)
     ctx.label_if(!layout.target_categorical, "regression");
     ctx.nontrivial = chunked_parallel && any_missing;
 
+    judge.flush();
     if (judge.fail)
     {
         return *judge.fail;
